@@ -4,6 +4,7 @@ import (
 	"fmt"
 	"io"
 	"os"
+	"path/filepath"
 
 	"github.com/mikefarah/yq/v4/pkg/verifhook"
 )
@@ -47,6 +48,19 @@ func copyFileContents(src, dst string) (err error) {
 		return err
 	}
 	defer safelyCloseFile(in)
+
+	// First choice: write the new content into a temp file next to the destination and rename
+	// it into place, so that the destination is never seen empty or half written. Only when that
+	// cannot be done (e.g. the destination is a single bind mounted file, or its directory is
+	// not writable) is the destination overwritten in place.
+	replaced, err := replaceWithSiblingTempFile(in, dst)
+	if replaced || err != nil {
+		return err
+	}
+	if _, err = in.Seek(0, io.SeekStart); err != nil {
+		return err
+	}
+
 	if err = verifhook.Step("copy.createDst", dst); err != nil {
 		return err
 	}
@@ -66,6 +80,51 @@ func copyFileContents(src, dst string) (err error) {
 		return err
 	}
 	return out.Sync()
+}
+
+// replaceWithSiblingTempFile copies src into a temp file in the directory of dst and renames it
+// over dst. It reports (false, nil) when that route is not available (the temp file cannot be
+// created there, or cannot be renamed over dst) and nothing was changed; any other failure is
+// returned as an error, with dst untouched.
+func replaceWithSiblingTempFile(src *os.File, dst string) (bool, error) {
+	info, err := src.Stat()
+	if err != nil {
+		return false, err
+	}
+	sibling, err := os.CreateTemp(filepath.Dir(dst), ".yq-tmp-")
+	if err != nil {
+		log.Debugf("cannot create a temp file next to %v: %v", dst, err)
+		return false, nil
+	}
+	siblingName := sibling.Name()
+	discard := func(cause error) (bool, error) {
+		_ = sibling.Close()
+		_ = os.Remove(siblingName)
+		return false, cause
+	}
+	if _, err = io.Copy(sibling, src); err != nil {
+		return discard(err)
+	}
+	// the source temp file already carries the owner and mode of the original
+	if err = changeOwner(info, sibling); err != nil {
+		return discard(err)
+	}
+	if err = os.Chmod(siblingName, info.Mode()); err != nil {
+		return discard(err)
+	}
+	if err = sibling.Sync(); err != nil {
+		return discard(err)
+	}
+	if err = sibling.Close(); err != nil {
+		_ = os.Remove(siblingName)
+		return false, err
+	}
+	if err = os.Rename(siblingName, dst); err != nil {
+		log.Debugf("cannot rename %v over %v: %v", siblingName, dst, err)
+		_ = os.Remove(siblingName)
+		return false, nil
+	}
+	return true, nil
 }
 
 func SafelyCloseReader(reader io.Reader) {
